@@ -405,12 +405,28 @@ def run_response_model(ctx, lims):
                 ctx.violation({"parser": "response", "kind": "must-reject", "lim": list(H.DEFAULT_LIM), "segs": [x.hex() for x in segs], "what": what},
                               f"response parser, strict reading: {what} is accepted ({im['outcome']}, {len(im['msgs'])} message(s))")
                 break
+    # ... and well-formed pipelines are read as RFC 9112 reads them (a sample; harness/c03.py runs the larger one)
+    for i in range(25 if ctx.quick else 300):
+        st, expected = R.gen_wellformed(rng)
+        for segs in H.segmentations(rng, st, True)[:4]:
+            im = R.impl_run(segs, H.DEFAULT_LIM, True, True, True)
+            nmr += 1
+            ctx.case((st, tuple(len(x) for x in segs), "strict-reading"), nontrivial=True)
+            why = R.strict_reading_violation(expected, im)
+            if why:
+                ctx.violation({"parser": "response", "kind": "strict-reading", "lim": list(H.DEFAULT_LIM),
+                               "segs": [x.hex() for x in segs], "expected": expected}, "response parser, strict reading: " + why)
+                break
     ctx.count("suite:response-must-reject", nmr)
     ctx.notes.append(f"response-parser-model part: {_t.process_time() - cpu0:.1f}s CPU in this process")
 
 
 def replay(ctx, case):
     lim = tuple(case["lim"]) if "lim" in case else H.DEFAULT_LIM
+    if case.get("kind") == "strict-reading":
+        im = R.impl_run([bytes.fromhex(x) for x in case["segs"]], lim, True, True, True)
+        why = R.strict_reading_violation(case["expected"], im)
+        return {"observed": im["outcome"], "why": why, "violates": why is not None}
     if case.get("kind") == "must-reject":
         im = R.impl_run([bytes.fromhex(x) for x in case["segs"]], lim, True, True, True)
         return {"impl": im["outcome"], "messages": len(im["msgs"]),
